@@ -4,17 +4,18 @@ real fibre_cache::Cache vs the extraction of coq/Cache/{Iter,Snapshot}.v.
 
 case:  <shards> <cap|0> <ttl|0> <tti|0>  ops...
 ops:   I k v c | T k v c d | A d | G k | P k | IT | IB n | IC n d K | SD | ST n | SC n d K | IS | AS
-       | SN gap rtti | M | C
+       | SN gap rtti | SB gap rttl rtti | M | C
+       (SN: restoring builder without time_to_live; SB: with time_to_live rttl - it applies to later inserts only)
 Generator invariants that every sub-sequence of a case keeps (so shrinking stays inside the model):
-  * M only in cases whose header has ttl = tti = 0 and whose SN ops have rtti = 0 (no timer wheel, no
-    TTI sampling in run_maintenance);
+  * M only in cases whose header has ttl = tti = 0, whose SN ops have rtti = 0 and that have no SB op (no
+    timer wheel, no TTI sampling in run_maintenance);
   * G (fetch) only in unbounded cases (bounded caches are read with peek: no read-access batching).
 """
 import re
 from .flow import Engine
 
 ARITY = {"I": 4, "T": 5, "A": 2, "G": 2, "P": 2, "IT": 1, "IB": 2, "IC": 4, "SD": 1, "ST": 2, "SC": 4,
-         "IS": 1, "AS": 1, "SN": 3, "M": 1, "C": 1}
+         "IS": 1, "AS": 1, "SN": 3, "SB": 4, "M": 1, "C": 1}
 T0 = 1000
 DEFAULT_BATCH = 64
 DRAIN_LIMIT = 16
@@ -74,6 +75,10 @@ class IterEngine(Engine):
         c.append("2 10 0 0 I 5 1 4 I 2 2 4 I 3 3 4 I 8 4 3 SN 2 0 C M C IT I 4 5 1 I 9 6 2 M C IT")
         c.append("1 10 0 0 I 1 1 4 I 2 2 4 I 3 3 4 C SN 0 0 C M C IT I 4 4 1 M C IT")
         c.append("1 10 0 0 I 1 1 4 I 2 2 4 I 3 3 4 C M C IT")
+        # restoring builder with its own time_to_live: the persisted remaining TTL must win (seeded C17-2)
+        c.append("1 0 0 0 T 1 1 1 10 I 2 2 1 A 5 SB 0 30 0 A 4 IT A 2 IT P 1 P 2 SN 0 0 I 3 3 1 A 29 IT A 1 IT")
+        c.append("2 0 20 0 I 1 1 1 T 2 2 1 50 A 15 SB 3 20 0 P 1 A 4 P 1 A 1 P 1 IT IS A 40 IT")
+        c.append("4 0 7 0 I 1 1 1 I 2 2 1 I 3 3 1 A 6 SB 0 7 5 IT A 1 IT SD")
         # TTI is reset by restore
         c.append("1 0 0 10 I 1 1 1 A 9 SN 0 10 A 5 P 1")
         return c
@@ -135,7 +140,23 @@ class IterEngine(Engine):
 
         ops += observe(rng.pick([1, 2, 3]))
         if mode == "restore":
-            ops.append(["SN", str(rng.pick([0, 0, 1, 5, 20])), str(rng.pick([0, 0, 4, 12]))])
+            gap = str(rng.pick([0, 0, 1, 5, 20]))
+            if rng.chance(1, 3):
+                # restoring builder with its own time_to_live: equal to / shorter / longer than the original's
+                # ttls; then walk the clock past the ORIGINAL deadlines and look
+                rttl = rng.pick([ttl, 3, 7, 30, 100, 2000]) or 30
+                ops.append(["SB", gap, str(rttl), str(rng.pick([0, 0, 0, 4, 12]))])
+                for _ in range(rng.pick([1, 2, 3])):
+                    ops.append(["A", str(rng.pick([1, 2, 3, 5, 6, 7, 10, 25, 50]))])
+                    ops.append([rng.pick(["IT", "IT", "IB", "IS", "SN", "P"])])
+                    if ops[-1] == ["IB"]:
+                        ops[-1] = ["IB", str(rng.pick([1, 2, 64]))]
+                    elif ops[-1] == ["SN"]:
+                        ops[-1] = ["SN", "0", "0"]
+                    elif ops[-1] == ["P"]:
+                        ops[-1] = ["P", str(key(rng.below(n + 1)))]
+            else:
+                ops.append(["SN", gap, str(rng.pick([0, 0, 4, 12]))])
             ops += observe(rng.pick([1, 2, 4]))
             for j in range(rng.below(6)):
                 ops.append(["I", str(key(rng.below(n + 4))), str(vid), "1"])
@@ -198,7 +219,7 @@ class IterEngine(Engine):
 
     def nontrivial(self, line, out):
         ops = self.split(line)[1]
-        return len(ops) >= 2 and any(o[0] in ("IT", "IB", "IC", "SD", "ST", "SC", "IS", "AS", "SN") for o in ops)
+        return len(ops) >= 2 and any(o[0] in ("IT", "IB", "IC", "SD", "ST", "SC", "IS", "AS", "SN", "SB") for o in ops)
 
     # ---------------------------------------------------------------- monitor
     def monitor(self, line, out):
@@ -242,12 +263,17 @@ class IterEngine(Engine):
             if v != e["v"]:
                 hit("wrong-value", "%s served %d:%d, current value is %d" % (what, k, v, e["v"]))
             e["maybe"] = False
-            if expired(e, t_live):
+            if e["limit"] is not None and t_live >= e["limit"]:
+                outlived(e, k, what, t_live)
+            elif expired(e, t_live):
                 hit("served-expired", "%s served key %d at t=%d, after its expiry" % (what, k, t_live))
-            elif e["limit"] is not None and t_live >= e["limit"]:
-                cl = "restore-tti-not-preserved" if e["why"] == "tti" else "restore-lifetime-longer"
-                hit(cl, "%s served restored key %d at t=%d; the lifetime it had left in the original cache, "
-                        "counted from the restore at t=%d, ended at t=%d" % (what, k, t_live, e["rt"], e["limit"]))
+
+        def outlived(e, k, what, t):
+            """a restored, untouched entry is still there at or after the end of the lifetime it had left in
+            the original cache (counted from the restore): remaining lifetimes must not be longer"""
+            cl = "restore-tti-not-preserved" if e["why"] == "tti" else "restored-outlives-original"
+            hit(cl, "%s served restored key %d at t=%d; the lifetime it had left in the original cache, "
+                    "counted from the restore at t=%d, ended at t=%d" % (what, k, t, e["rt"], e["limit"]))
 
         def touch(k):
             if tti > 0 and k in ents:
@@ -330,8 +356,8 @@ class IterEngine(Engine):
                     for k in seen:
                         touch(k)
                 now = end
-            elif t == "SN":
-                gap, rtti = int(op[1]), int(op[2])
+            elif t in ("SN", "SB"):
+                gap, rttl, rtti = (int(op[1]), 0, int(op[2])) if t == "SN" else (int(op[1]), int(op[2]), int(op[3]))
                 m = re.match(r"sn (\d+) \[([0-9:,\-]*)\]( ROUNDTRIP-DIFFERS)?$", o)
                 if not m:
                     hit("bad-output", o)
@@ -353,7 +379,9 @@ class IterEngine(Engine):
                     if e is None:
                         hit("phantom", "snapshot contains key %d which is not in the cache" % k)
                         continue
-                    if expired(e, now):
+                    if e["limit"] is not None and now >= e["limit"]:
+                        outlived(e, k, "to_snapshot", now)      # and carry it over: it IS in the new cache
+                    elif expired(e, now):
                         hit("snapshot-expired", "snapshot contains key %d, expired at t=%d" % (k, now))
                         continue
                     if v != e["v"] or c != e["c"]:
@@ -371,7 +399,7 @@ class IterEngine(Engine):
                         hit("snapshot-missing", "live key %d (value %d) is not in the snapshot" % (k, e["v"]))
                 ents = new
                 now = rt
-                tti, ttl = rtti, 0
+                tti, ttl = rtti, rttl       # the builder's time_to_live applies to later inserts only
                 restored = True
                 snap_total = sum(c for (_, c, _) in rows.values())
                 pending = {}
